@@ -5,6 +5,7 @@ package sx
 // from a symbolic hash); contents are String terms; modes are Int terms.
 
 import (
+	"math/big"
 	"fmt"
 	"go/types"
 	"strings"
@@ -17,6 +18,7 @@ type fsFile struct {
 	isDir   bool
 	dead    bool
 	nlink   *fsFile // hard link target (shares content): nil for ordinary files
+	born    value   // the last clock reading before the file was created in this run (nil: unknown / set up by the harness)
 }
 
 type fsState struct {
@@ -43,6 +45,7 @@ type fileInfo struct {
 	size  value
 	mode  value
 	isDir bool
+	born  value
 }
 
 func (i *interpreter) fs() *fsState {
@@ -200,7 +203,7 @@ func (i *interpreter) fsOpen(path value, flags int64, perm value) (value, value)
 		if e := i.fsMutate("create", path); e != nil {
 			return (*value)(nil), e
 		}
-		f = &fsFile{path: path, content: "", mode: perm}
+		f = &fsFile{path: path, content: "", mode: perm, born: i.lastNow}
 		i.fs().files = append(i.fs().files, f)
 	} else {
 		if flags&oCREATE != 0 && flags&oEXCL != 0 {
@@ -303,7 +306,7 @@ func (i *interpreter) fileWrite(h *fileHandle, data value) value {
 
 func (i *interpreter) infoOf(f *fsFile, name value) value {
 	t := f.target()
-	fi := &fileInfo{name: name, size: i.path.mkLen(t.content), mode: t.mode, isDir: f.isDir}
+	fi := &fileInfo{name: name, size: i.path.mkLen(t.content), mode: t.mode, isDir: f.isDir, born: t.born}
 	return iface{t: types.NewPointer(i.namedType("os", "fileStat")), v: &nativeObj{kind: "fileinfo", v: fi}}
 }
 
@@ -565,7 +568,27 @@ func init() {
 	}
 	nativeMethods["fileinfo.IsDir"] = func(fr *frame, a []value) value { return fi(a[0]).isDir }
 	nativeMethods["fileinfo.Name"] = func(fr *frame, a []value) value { return baseName(fi(a[0]).name) }
-	nativeMethods["fileinfo.ModTime"] = func(fr *frame, a []value) value { return mkTime(int64(1)) }
+	// ModTime: some instant not before the last clock reading that preceded the
+	// file's creation in this run (any instant for files the harness set up)
+	// and not after any later clock reading
+	nativeMethods["fileinfo.ModTime"] = func(fr *frame, a []value) value {
+		i := fr.i
+		p := i.path
+		m := p.input("fs.mtime", SInt)
+		base, _ := new(big.Int).SetString("63713433600000000000", 10)
+		top, _ := new(big.Int).SetString("69400000000000000000", 10)
+		p.pc = append(p.pc, "(<= "+base.String()+" "+m.e+")", "(<= "+m.e+" "+top.String()+")")
+		p.varIv[m.e] = ival{base, top}
+		if b := fi(a[0]).born; b != nil {
+			p.pc = append(p.pc, "(<= "+tInt(b)+" "+m.e+")")
+		}
+		if i.lastNow != nil {
+			i.lastNow = &Sym{sort: SInt, e: "(ite (< " + tInt(i.lastNow) + " " + m.e + ") " + m.e + " " + tInt(i.lastNow) + ")", lo: base, hi: top}
+		} else {
+			i.lastNow = m
+		}
+		return mkTime(m)
+	}
 	nativeMethods["fileinfo.Sys"] = func(fr *frame, a []value) value { return iface{} }
 	reg("(io/fs.FileMode).IsRegular", func(fr *frame, a []value) value {
 		if c, ok := a[0].(int64); ok {
